@@ -690,6 +690,10 @@ End Suite.
 (* ------------------------------------------------------------------------------------------------ *)
 (* functions: decorator lines, def lines, overload merging *)
 
+Section Fixed.
+Variable fixed : bool.
+
+
 Lemma parse_line_deco : forall env scope ic p d,
   parse_line env scope ic p (deco_line d) = Some (LPend (p ++ [d])).
 Proof. reflexivity. Qed.
@@ -697,21 +701,21 @@ Proof. reflexivity. Qed.
 Lemma print_fsig_head : forall c f, exists r, print_fsig c f = TLPar :: r.
 Proof. intros. unfold print_fsig, sig_head. eexists. cbn [app]. reflexivity. Qed.
 
-Definition rest_decos (f : func) : list N := filter (fun d => negb (is_flag_deco d)) (printed_decos f).
+Definition rest_decos (f : func) : list N := filter (fun d => negb (is_flag_deco d)) ((printed_decos fixed) f).
 Definition rdef_of (c : ctx) (f : func) (s : fsig) : rdef :=
   mkRD (fn_name f) (norm_fsig c (fn_name f) s) (rest_decos f)
-       (mem id_abstractmethod (printed_decos f)) (mem id_coroutine (printed_decos f)) (mem id_final (printed_decos f)).
+       (mem id_abstractmethod ((printed_decos fixed) f)) (mem id_coroutine ((printed_decos fixed) f)) (mem id_final ((printed_decos fixed) f)).
 Definition dfun_of (c : ctx) (f : func) : dfun :=
   mkDF (fn_name f) (map (norm_fsig c (fn_name f)) (fn_sigs f))
-       (mem id_abstractmethod (printed_decos f)) (mem id_coroutine (printed_decos f)) (mem id_final (printed_decos f))
+       (mem id_abstractmethod ((printed_decos fixed) f)) (mem id_coroutine ((printed_decos fixed) f)) (mem id_final ((printed_decos fixed) f))
        (rest_decos f) (mem id_property (rest_decos f)).
 
-Lemma norm_func_dfun : forall c f, norm_func c f = finish_df (dfun_of c f).
+Lemma norm_func_dfun : forall c f, (norm_func fixed) c f = finish_df (dfun_of c f).
 Proof. reflexivity. Qed.
 
-Lemma wf_func_parts : forall env scope c f, wf_func env scope c f = true ->
+Lemma wf_func_parts : forall env scope c f, (wf_func fixed) env scope c f = true ->
   decl_name env (fn_name f) = true /\ fn_sigs f <> [] /\ forallb (wf_fsig env scope c) (fn_sigs f) = true /\
-  decos_ok c f = true /\ verify_func scope (norm_func c f) = true.
+  (decos_ok fixed) c f = true /\ verify_func scope ((norm_func fixed) c f) = true.
 Proof.
   intros env scope c f H. unfold wf_func in H.
   apply andb_true_iff in H. destruct H as [H H5]. apply andb_true_iff in H. destruct H as [H H4].
@@ -720,8 +724,8 @@ Proof.
 Qed.
 
 Lemma parse_line_def : forall env scope sc ic c f s,
-  wf_func env sc c f = true -> In s (fn_sigs f) ->
-  parse_line env scope ic (printed_decos f) (print_def c (fn_name f) s) = Some (LItem (DDef (rdef_of c f s))).
+  (wf_func fixed) env sc c f = true -> In s (fn_sigs f) ->
+  parse_line env scope ic ((printed_decos fixed) f) (print_def c (fn_name f) s) = Some (LItem (DDef (rdef_of c f s))).
 Proof.
   intros env scope sc ic c f s H Hs.
   destruct (wf_func_parts env sc c f H) as (Hn & _ & Hsig & Hd & _).
@@ -739,15 +743,15 @@ Qed.
 
 (* the lines of one function, inside any suite *)
 Lemma suite_func : forall env scope sc ic pc c f X l,
-  wf_func env sc c f = true ->
+  (wf_func fixed) env sc c f = true ->
   suite_loop (parse_line env scope ic) pc [] X = Some l ->
-  suite_loop (parse_line env scope ic) pc [] (map SLine (print_func c f) ++ X) =
+  suite_loop (parse_line env scope ic) pc [] (map SLine ((print_func fixed) c f) ++ X) =
     Some (map (fun s => DDef (rdef_of c f s)) (fn_sigs f) ++ l).
 Proof.
   intros env scope sc ic pc c f X l H HX. unfold print_func.
   assert (G: forall sigs, (forall s, In s sigs -> In s (fn_sigs f)) ->
     suite_loop (parse_line env scope ic) pc []
-      (map SLine (flat_map (fun s => map deco_line (printed_decos f) ++ [print_def c (fn_name f) s]) sigs) ++ X) =
+      (map SLine (flat_map (fun s => map deco_line ((printed_decos fixed) f) ++ [print_def c (fn_name f) s]) sigs) ++ X) =
     Some (map (fun s => DDef (rdef_of c f s)) sigs ++ l)).
   { induction sigs as [|s r IH]; intros Hin; [exact HX|].
     cbn [flat_map]. rewrite !map_app. rewrite map_map. cbn [map]. rewrite <- !app_assoc.
@@ -786,11 +790,11 @@ Lemma eqb_refl_b : forall b, Bool.eqb b b = true. Proof. destruct b; reflexivity
 
 Lemma merge_overloads : forall c f tail acc rs sigs0,
   (forall x, In x acc -> (df_name x =? fn_name f)%N = false) ->
-  merge_defs (acc ++ [mkDF (fn_name f) sigs0 (mem id_abstractmethod (printed_decos f)) (mem id_coroutine (printed_decos f))
-                           (mem id_final (printed_decos f)) (rest_decos f) false])
+  merge_defs (acc ++ [mkDF (fn_name f) sigs0 (mem id_abstractmethod ((printed_decos fixed) f)) (mem id_coroutine ((printed_decos fixed) f))
+                           (mem id_final ((printed_decos fixed) f)) (rest_decos f) false])
              (map (rdef_of c f) rs ++ tail) =
-  merge_defs (acc ++ [mkDF (fn_name f) (sigs0 ++ map (norm_fsig c (fn_name f)) rs) (mem id_abstractmethod (printed_decos f))
-                           (mem id_coroutine (printed_decos f)) (mem id_final (printed_decos f)) (rest_decos f) false])
+  merge_defs (acc ++ [mkDF (fn_name f) (sigs0 ++ map (norm_fsig c (fn_name f)) rs) (mem id_abstractmethod ((printed_decos fixed) f))
+                           (mem id_coroutine ((printed_decos fixed) f)) (mem id_final ((printed_decos fixed) f)) (rest_decos f) false])
              tail.
 Proof.
   intros c f tail acc. induction rs as [|s r IH]; intros sigs0 Hacc.
@@ -803,7 +807,7 @@ Proof.
 Qed.
 
 Lemma merge_func : forall c f tail acc,
-  decos_ok c f = true -> fn_sigs f <> [] ->
+  (decos_ok fixed) c f = true -> fn_sigs f <> [] ->
   (forall x, In x acc -> (df_name x =? fn_name f)%N = false) ->
   merge_defs acc (map (rdef_of c f) (fn_sigs f) ++ tail) = merge_defs (acc ++ [dfun_of c f]) tail.
 Proof.
@@ -824,7 +828,7 @@ Qed.
 Definition func_defs (c : ctx) (fs : list func) : list rdef := flat_map (fun f => map (rdef_of c f) (fn_sigs f)) fs.
 
 Lemma merge_all : forall c fs acc,
-  (forall f, In f fs -> decos_ok c f = true /\ fn_sigs f <> []) ->
+  (forall f, In f fs -> (decos_ok fixed) c f = true /\ fn_sigs f <> []) ->
   NoDup (map df_name acc ++ map fn_name fs) ->
   merge_defs acc (func_defs c fs) = Some (acc ++ map (dfun_of c) fs).
 Proof.
@@ -842,8 +846,8 @@ Proof.
 Qed.
 
 Lemma merge_funcs_print : forall c fs,
-  (forall f, In f fs -> decos_ok c f = true /\ fn_sigs f <> []) -> NoDup (map fn_name fs) ->
-  merge_funcs (func_defs c fs) = Some (map (norm_func c) fs).
+  (forall f, In f fs -> (decos_ok fixed) c f = true /\ fn_sigs f <> []) -> NoDup (map fn_name fs) ->
+  merge_funcs (func_defs c fs) = Some (map ((norm_func fixed) c) fs).
 Proof.
   intros c fs H Hnd. unfold merge_funcs. rewrite (merge_all c fs [] H Hnd). cbn [app]. rewrite map_map. reflexivity.
 Qed.
@@ -1012,7 +1016,7 @@ End ClsInd.
 Definition class_items (cl : cls) : list ditem :=
   let c := mkCtx false (Some (c_name cl)) in
   (match c_slots cl with Some sl => [DSlots sl] | None => [] end)
-  ++ map DCls (map norm_cls (c_classes cl))
+  ++ map DCls (map (norm_cls fixed) (c_classes cl))
   ++ map DConst (map (norm_const c) (c_consts cl))
   ++ flat_map (fun f => map (fun s => DDef (rdef_of c f s)) (fn_sigs f)) (c_methods cl).
 
@@ -1055,15 +1059,15 @@ Proof.
 Qed.
 
 Lemma wf_cls_unfold : forall env scope nested nm bases kws decos slots classes consts methods,
-  wf_cls env scope nested (mkCls nm bases kws decos slots classes consts methods) = true ->
+  (wf_cls fixed) env scope nested (mkCls nm bases kws decos slots classes consts methods) = true ->
   let c := mkCtx false (Some nm) in
   let sc := scope ++ flat_map tparams (norm_bases c nm bases) in
   decl_name env nm = true /\ forallb (wf_base env) bases = true /\ forallb (wf_kw env) kws = true /\
   forallb (fun d => negb (nonclass_deco d) && negb (reserved_word d)) decos = true /\
   forallb (wf_const env) consts = true /\ forallb (fun k => negb (k_name k =? id_slots)%N) consts = true /\
-  forallb (wf_func env sc c) methods = true /\
+  forallb ((wf_func fixed) env sc c) methods = true /\
   nodup_by N.eqb (map k_name consts ++ map fn_name methods) = true /\
-  forallb (wf_cls env sc true) classes = true.
+  forallb ((wf_cls fixed) env sc true) classes = true.
 Proof.
   intros env scope nested nm bases kws decos slots classes consts methods H. cbn zeta. cbn [wf_cls] in H.
   apply andb_true_iff in H; destruct H as [H H10]. apply andb_true_iff in H; destruct H as [H H9].
@@ -1079,10 +1083,10 @@ Lemma class_items_proj : forall cl,
   item_consts (class_items cl) = map (norm_const c) (c_consts cl) /\
   item_slots (class_items cl) = match c_slots cl with Some sl => [sl] | None => [] end /\
   item_defs (class_items cl) = func_defs c (c_methods cl) /\
-  item_classes (class_items cl) = map norm_cls (c_classes cl).
+  item_classes (class_items cl) = map (norm_cls fixed) (c_classes cl).
 Proof.
   intros cl. cbn zeta. unfold class_items.
-  destruct (items_of_classes (map norm_cls (c_classes cl))) as (A1 & B1 & C1 & D1 & _).
+  destruct (items_of_classes (map (norm_cls fixed) (c_classes cl))) as (A1 & B1 & C1 & D1 & _).
   destruct (items_of_consts (map (norm_const (mkCtx false (Some (c_name cl)))) (c_consts cl))) as (A2 & B2 & C2 & D2 & _).
   destruct (items_of_defs (mkCtx false (Some (c_name cl))) (c_methods cl)) as (A3 & B3 & C3 & D3 & _).
   unfold item_consts, item_slots, item_defs, item_classes in *.
@@ -1115,10 +1119,10 @@ Proof.
   - apply (IH b x Hr Ha Hb).
 Qed.
 
-Lemma build_class_items : forall env scope nested cl, wf_cls env scope nested cl = true ->
+Lemma build_class_items : forall env scope nested cl, (wf_cls fixed) env scope nested cl = true ->
   let c := mkCtx false (Some (c_name cl)) in
   build_class scope (c_name cl) (map (norm (ctx_plain c)) (kept_bases c (c_bases cl))) (map (norm_kw c) (c_kws cl))
-              (dedup N.eqb (c_decos cl)) (class_items cl) = Some (norm_cls cl).
+              (dedup N.eqb (c_decos cl)) (class_items cl) = Some ((norm_cls fixed) cl).
 Proof.
   intros env scope nested cl Hwf. cbn zeta.
   destruct (class_items_proj cl) as (Ic & Is & Id & Icl). cbn zeta in *.
@@ -1147,14 +1151,14 @@ Proof.
     unfold mem in Hmem. apply existsb_exists in Hmem. destruct Hmem as (x & Hx & Hex). apply N.eqb_eq in Hex. subst x.
     apply in_map_iff in Hx. destruct Hx as (d & Ed & Hd). pose proof (func_defs_names c methods d Hd) as Hin. rewrite Ed in Hin.
     apply (NoDup_app_disj _ _ (k_name k0) HND); [apply in_map; exact Hk0 | exact Hin]. }
-  assert (E4: merge_funcs (func_defs c methods) = Some (map (norm_func c) methods)).
+  assert (E4: merge_funcs (func_defs c methods) = Some (map ((norm_func fixed) c) methods)).
   { apply merge_funcs_print.
     - intros f Hf. rewrite forallb_forall in Hm. destruct (wf_func_parts _ _ _ _ (Hm f Hf)) as (_ & Hne & _ & Hd & _). auto.
     - apply (NoDup_app_r _ _ HND). }
   assert (Ebases: final_bases nm (map (norm (ctx_plain c)) (kept_bases c bases)) = norm_bases c nm bases)
     by (symmetry; apply norm_bases_kept).
   assert (E5: forallb (verify_func (scope ++ flat_map tparams (norm_bases c nm bases)))
-                (filter (fun f => negb (const_property f)) (map (norm_func c) methods)) = true).
+                (filter (fun f => negb (const_property f)) (map ((norm_func fixed) c) methods)) = true).
   { rewrite forallb_forall. intros f Hf. apply filter_In in Hf. destruct Hf as [Hf _].
     apply in_map_iff in Hf. destruct Hf as (f0 & <- & Hf0). rewrite forallb_forall in Hm.
     destruct (wf_func_parts _ _ _ _ (Hm f0 Hf0)) as (_ & _ & _ & _ & Hv). exact Hv. }
@@ -1234,15 +1238,15 @@ Proof. intros; subst; reflexivity. Qed.
 
 (* a printed class (decorator lines, header, suite) inside any suite that is read with the same scope *)
 Definition class_reads (cl : cls) : Prop :=
-  forall env scope nested ic X l, wf_cls env scope nested cl = true ->
+  forall env scope nested ic X l, (wf_cls fixed) env scope nested cl = true ->
   suite_loop (parse_line env scope ic) (parse_class env scope) [] X = Some l ->
-  suite_loop (parse_line env scope ic) (parse_class env scope) [] (print_cls cl ++ X) = Some (DCls (norm_cls cl) :: l).
+  suite_loop (parse_line env scope ic) (parse_class env scope) [] ((print_cls fixed) cl ++ X) = Some (DCls ((norm_cls fixed) cl) :: l).
 
 Lemma suite_classes : forall env scope ic classes X l,
-  Forall class_reads classes -> forallb (wf_cls env scope true) classes = true ->
+  Forall class_reads classes -> forallb ((wf_cls fixed) env scope true) classes = true ->
   suite_loop (parse_line env scope ic) (parse_class env scope) [] X = Some l ->
-  suite_loop (parse_line env scope ic) (parse_class env scope) [] (flat_map print_cls classes ++ X) =
-    Some (map DCls (map norm_cls classes) ++ l).
+  suite_loop (parse_line env scope ic) (parse_class env scope) [] (flat_map (print_cls fixed) classes ++ X) =
+    Some (map DCls (map (norm_cls fixed) classes) ++ l).
 Proof.
   intros env scope ic classes X l HF. induction HF as [|x r Hx _ IH]; intros Hw HX; [exact HX|].
   cbn [forallb] in Hw. apply andb_true_iff in Hw. destruct Hw as [Hwx Hwr].
@@ -1251,8 +1255,8 @@ Proof.
 Qed.
 
 Lemma suite_funcs : forall env scope ic pc c fs,
-  forallb (wf_func env scope c) fs = true ->
-  suite_loop (parse_line env scope ic) pc [] (map SLine (flat_map (print_func c) fs)) =
+  forallb ((wf_func fixed) env scope c) fs = true ->
+  suite_loop (parse_line env scope ic) pc [] (map SLine (flat_map ((print_func fixed) c) fs)) =
     Some (flat_map (fun f => map (fun s => DDef (rdef_of c f s)) (fn_sigs f)) fs).
 Proof.
   intros env scope ic pc c. induction fs as [|f r IH]; intros H; [reflexivity|].
@@ -1260,7 +1264,7 @@ Proof.
   cbn [flat_map]. rewrite map_app. apply (suite_func env scope scope ic pc c f _ _ Hf). apply IH. exact Hr.
 Qed.
 
-Lemma class_items_nonempty : forall env scope nested cl, wf_cls env scope nested cl = true ->
+Lemma class_items_nonempty : forall env scope nested cl, (wf_cls fixed) env scope nested cl = true ->
   has_body cl = true -> class_items cl <> [].
 Proof.
   intros env scope nested [nm bases kws decos slots classes consts methods] Hwf H.
@@ -1284,12 +1288,12 @@ Proof.
   set (c := mkCtx false (Some n)) in *.
   set (sc := scope ++ flat_map tparams (norm_bases c n b)) in *.
   destruct (decl_name_parts env n Hn) as [Hres _]. destruct (reserved_parts n Hres) as (Hdef & _).
-  assert (Eprint: print_cls cl =
+  assert (Eprint: (print_cls fixed) cl =
             map (fun d => SLine (deco_line d)) (dedup N.eqb d)
             ++ [if has_body cl then SClass (class_header c cl true)
                   ((match s with Some sl => [SLine (slots_line sl)] | None => [] end)
-                   ++ flat_map print_cls cs ++ map (fun k => SLine (print_const c k)) ks
-                   ++ map SLine (flat_map (print_func c) ms))
+                   ++ flat_map (print_cls fixed) cs ++ map (fun k => SLine (print_const c k)) ks
+                   ++ map SLine (flat_map ((print_func fixed) c) ms))
                 else SLine (class_header c cl false)]) by reflexivity.
   rewrite Eprint. rewrite <- app_assoc.
   rewrite suite_decos by (intros; apply parse_line_deco). cbn [app].
@@ -1302,8 +1306,8 @@ Proof.
     rewrite <- (norm_bases_kept c n b). fold sc.
     assert (Hinner: suite_loop (parse_line env sc true) (parse_class env sc) []
               ((match s with Some sl => [SLine (slots_line sl)] | None => [] end)
-               ++ flat_map print_cls cs ++ map (fun k => SLine (print_const c k)) ks
-               ++ map SLine (flat_map (print_func c) ms)) = Some (class_items cl)).
+               ++ flat_map (print_cls fixed) cs ++ map (fun k => SLine (print_const c k)) ks
+               ++ map SLine (flat_map ((print_func fixed) c) ms)) = Some (class_items cl)).
     { unfold class_items. cbn [c_slots c_classes c_consts c_methods c_name]. fold c.
       apply suite_app.
       - destruct s as [sl|]; [|reflexivity]. cbn [suite_loop]. rewrite parse_line_slots. reflexivity.
@@ -1371,7 +1375,7 @@ Proof.
   pose proof (flat_not_call2 (to_expr plain0 t)) as F. destruct (flat (to_expr plain0 t)) as [|[] [|[] ?]]; try exact I. exact F.
 Qed.
 
-Lemma func_not_tvar : forall c f, Forall not_tvar_line (print_func c f).
+Lemma func_not_tvar : forall c f, Forall not_tvar_line ((print_func fixed) c f).
 Proof.
   intros c f. unfold print_func. apply Forall_forall. intros ts Hts. apply in_flat_map in Hts.
   destruct Hts as (s & _ & Hin). apply in_app_or in Hin. destruct Hin as [Hin|[<-|[]]].
@@ -1379,14 +1383,14 @@ Proof.
   - exact I.
 Qed.
 
-Lemma tvar_names_cls : forall cl, tvar_names (print_cls cl) = [].
+Lemma tvar_names_cls : forall cl, tvar_names ((print_cls fixed) cl) = [].
 Proof.
   intros [n b k d s cs ks ms].
-  change (print_cls (mkCls n b k d s cs ks ms)) with
+  change ((print_cls fixed) (mkCls n b k d s cs ks ms)) with
     (map (fun d0 => SLine (deco_line d0)) (dedup N.eqb d) ++
      [if has_body (mkCls n b k d s cs ks ms) then SClass (class_header (mkCtx false (Some n)) (mkCls n b k d s cs ks ms) true)
-        ((match s with Some sl => [SLine (slots_line sl)] | None => [] end) ++ flat_map print_cls cs ++
-         map (fun k0 => SLine (print_const (mkCtx false (Some n)) k0)) ks ++ map SLine (flat_map (print_func (mkCtx false (Some n))) ms))
+        ((match s with Some sl => [SLine (slots_line sl)] | None => [] end) ++ flat_map (print_cls fixed) cs ++
+         map (fun k0 => SLine (print_const (mkCtx false (Some n)) k0)) ks ++ map SLine (flat_map ((print_func fixed) (mkCtx false (Some n))) ms))
       else SLine (class_header (mkCtx false (Some n)) (mkCls n b k d s cs ks ms) false)]).
   rewrite tvar_names_app.
   assert (E1: tvar_names (map (fun d0 => SLine (deco_line d0)) (dedup N.eqb d)) = []).
@@ -1438,12 +1442,12 @@ Proof.
   intros A pl pc pr it l H. rewrite <- (map_map pr SLine). apply suite_items. apply Forall2_map_l. exact H.
 Qed.
 
-Lemma wf_unit_parts : forall u, wf_unit u = true ->
+Lemma wf_unit_parts : forall u, (wf_unit fixed) u = true ->
   let env := map tp_name (sort_tps (u_tparams u)) in
   forallb (wf_tparam env) (u_tparams u) = true /\ forallb (wf_alias env) (u_aliases u) = true /\
-  forallb (wf_const env) (u_consts u) = true /\ forallb (wf_cls env [] false) (u_classes u) = true /\
-  forallb (wf_func env [] plain0) (u_funcs u) = true /\
-  forallb (fun f => negb (mkind_eqb (fn_kind (norm_func plain0 f)) KProp) &&
+  forallb (wf_const env) (u_consts u) = true /\ forallb ((wf_cls fixed) env [] false) (u_classes u) = true /\
+  forallb ((wf_func fixed) env [] plain0) (u_funcs u) = true /\
+  forallb (fun f => negb (mkind_eqb (fn_kind ((norm_func fixed) plain0 f)) KProp) &&
                     negb ((fn_name f =? id_getattr)%N && (1 <? length (fn_sigs f))%nat)) (u_funcs u) = true /\
   nodup_by N.eqb (unit_names u) = true.
 Proof.
@@ -1454,7 +1458,7 @@ Proof.
   repeat split; assumption.
 Qed.
 
-Theorem parse_unit_print_lemma : forall u, wf_unit u = true -> parse_unit (print_unit u) = Some (norm_unit u).
+Theorem parse_unit_print_lemma : forall u, (wf_unit fixed) u = true -> parse_unit ((print_unit fixed) u) = Some ((norm_unit fixed) u).
 Proof.
   intros u Hwf. destruct (wf_unit_parts u Hwf) as (Htp & Hal & Hco & Hcl & Hfn & Hmod & Hnd). cbn zeta in *.
   set (env := map tp_name (sort_tps (u_tparams u))) in *.
@@ -1462,13 +1466,13 @@ Proof.
   set (secs := [ map (fun t => SLine (print_tparam plain0 t)) T;
                  map (fun a => SLine (print_alias plain0 a)) (u_aliases u);
                  map (fun k => SLine (print_const plain0 k)) (u_consts u);
-                 join_blank (map print_cls (u_classes u));
-                 map SLine (flat_map (print_func plain0) (u_funcs u)) ]).
-  assert (Eprint: print_unit u = join_blank (filter (fun s => negb (is_nil s)) secs)) by reflexivity.
+                 join_blank (map (print_cls fixed) (u_classes u));
+                 map SLine (flat_map ((print_func fixed) plain0) (u_funcs u)) ]).
+  assert (Eprint: (print_unit fixed) u = join_blank (filter (fun s => negb (is_nil s)) secs)) by reflexivity.
   assert (HT: forall t, In t T -> wf_tparam env t = true).
   { intros t Ht. rewrite forallb_forall in Htp. apply Htp. apply In_sort_tps. exact Ht. }
   (* the TypeVar names the reader collects *)
-  assert (Eenv: tvar_names (print_unit u) = env).
+  assert (Eenv: tvar_names ((print_unit fixed) u) = env).
   { rewrite Eprint, tvar_names_join, tvar_names_filter. unfold secs. cbn [flat_map]. rewrite app_nil_r.
     assert (E1: tvar_names (map (fun t => SLine (print_tparam plain0 t)) T) = env).
     { unfold env. fold T. clear. induction T as [|t r IH]; [reflexivity|]. cbn [map].
@@ -1479,16 +1483,16 @@ Proof.
     assert (E3: tvar_names (map (fun k => SLine (print_const plain0 k)) (u_consts u)) = []).
     { rewrite <- map_map. apply tvar_names_lines. apply Forall_forall. intros ts Hts. apply in_map_iff in Hts.
       destruct Hts as (k & <- & _). exact I. }
-    assert (E4: tvar_names (join_blank (map print_cls (u_classes u))) = []).
+    assert (E4: tvar_names (join_blank (map (print_cls fixed) (u_classes u))) = []).
     { rewrite tvar_names_join. generalize (u_classes u). clear. intros l. induction l as [|x r IH]; [reflexivity|]. cbn [map flat_map].
       rewrite tvar_names_cls, IH. reflexivity. }
-    assert (E5: tvar_names (map SLine (flat_map (print_func plain0) (u_funcs u))) = []).
+    assert (E5: tvar_names (map SLine (flat_map ((print_func fixed) plain0) (u_funcs u))) = []).
     { apply tvar_names_lines. apply Forall_forall. intros ts Hts. apply in_flat_map in Hts. destruct Hts as (f & _ & Hin).
       pose proof (func_not_tvar plain0 f) as F. rewrite Forall_forall in F. apply F. exact Hin. }
     rewrite E1, E2, E3, E4, E5. rewrite !app_nil_r. reflexivity. }
   unfold parse_unit. rewrite Eenv. unfold parse_stmts. rewrite Eprint.
   set (items := [ map DTvar (map (norm_tparam plain0) T); map DAlias (map (norm_alias plain0) (u_aliases u));
-                  map DConst (map (norm_const plain0) (u_consts u)); map DCls (map norm_cls (u_classes u));
+                  map DConst (map (norm_const plain0) (u_consts u)); map DCls (map (norm_cls fixed) (u_classes u));
                   flat_map (fun f => map (fun s => DDef (rdef_of plain0 f s)) (fn_sigs f)) (u_funcs u) ]).
   rewrite (suite_sections _ _ secs items).
   2:{ unfold secs, items. repeat constructor.
@@ -1498,7 +1502,7 @@ Proof.
         intros a Ha. rewrite forallb_forall in Hal. apply parse_line_alias. apply Hal. exact Ha.
       - rewrite (map_map (norm_const plain0) DConst). apply suite_lines_map.
         intros k Hk. rewrite forallb_forall in Hco. apply parse_line_const. apply Hco. exact Hk.
-      - assert (E: map DCls (map norm_cls (u_classes u)) = concat (map (fun x => [DCls (norm_cls x)]) (u_classes u))).
+      - assert (E: map DCls (map (norm_cls fixed) (u_classes u)) = concat (map (fun x => [DCls ((norm_cls fixed) x)]) (u_classes u))).
         { generalize (u_classes u). clear. intros l. induction l as [|x r IH]; [reflexivity|]. cbn. f_equal. exact IH. }
         rewrite E. apply suite_join_blank. apply Forall2_map_l. intros x Hx.
         rewrite forallb_forall in Hcl. pose proof (class_reads_all x env [] false false [] [] (Hcl x Hx) eq_refl) as R.
@@ -1508,7 +1512,7 @@ Proof.
   destruct (items_of_tvars (map (norm_tparam plain0) T)) as (A1 & B1 & C1 & D1 & E1 & F1).
   destruct (items_of_aliases (map (norm_alias plain0) (u_aliases u))) as (A2 & B2 & C2 & D2 & E2 & F2).
   destruct (items_of_consts (map (norm_const plain0) (u_consts u))) as (A3 & B3 & C3 & D3 & E3 & F3).
-  destruct (items_of_classes (map norm_cls (u_classes u))) as (A4 & B4 & C4 & D4 & E4 & F4).
+  destruct (items_of_classes (map (norm_cls fixed) (u_classes u))) as (A4 & B4 & C4 & D4 & E4 & F4).
   destruct (items_of_defs plain0 (u_funcs u)) as (A5 & B5 & C5 & D5 & E5 & F5). cbn zeta in *.
   unfold item_consts, item_slots, item_defs, item_classes, item_aliases, item_tvars in *.
   rewrite !flat_map_app.
@@ -1520,23 +1524,23 @@ Proof.
   rewrite (merge_funcs_print plain0 (u_funcs u)); [|
     intros f Hf; rewrite forallb_forall in Hfn; destruct (wf_func_parts _ _ _ _ (Hfn f Hf)) as (_ & Hne & _ & Hd & _); auto | exact HNDf].
   assert (Enames: map tp_name (map (norm_tparam plain0) T) ++ map fst (map (norm_alias plain0) (u_aliases u)) ++
-                  map k_name (map (norm_const plain0) (u_consts u)) ++ map c_name (map norm_cls (u_classes u)) ++
-                  map fn_name (map (norm_func plain0) (u_funcs u)) = unit_names u).
+                  map k_name (map (norm_const plain0) (u_consts u)) ++ map c_name (map (norm_cls fixed) (u_classes u)) ++
+                  map fn_name (map ((norm_func fixed) plain0) (u_funcs u)) = unit_names u).
   { unfold unit_names. fold T. rewrite !map_map.
-    assert (Ec: map (fun x => c_name (norm_cls x)) (u_classes u) = map c_name (u_classes u))
+    assert (Ec: map (fun x => c_name ((norm_cls fixed) x)) (u_classes u) = map c_name (u_classes u))
       by (apply map_ext; intros [n b k d s cs ks ms]; reflexivity).
     rewrite Ec. reflexivity. }
   rewrite Enames, Hnd. cbn [negb].
-  assert (Eprop: existsb (fun f => mkind_eqb (fn_kind f) KProp) (map (norm_func plain0) (u_funcs u)) = false).
+  assert (Eprop: existsb (fun f => mkind_eqb (fn_kind f) KProp) (map ((norm_func fixed) plain0) (u_funcs u)) = false).
   { apply existsb_forallb_neg. rewrite forallb_forall in *. intros f Hf. apply in_map_iff in Hf. destruct Hf as (f0 & <- & Hf0).
     specialize (Hmod f0 Hf0). apply andb_true_iff in Hmod. apply Hmod. }
-  assert (Egetattr: existsb (fun f => (fn_name f =? id_getattr)%N && (1 <? length (fn_sigs f))%nat) (map (norm_func plain0) (u_funcs u)) = false).
+  assert (Egetattr: existsb (fun f => (fn_name f =? id_getattr)%N && (1 <? length (fn_sigs f))%nat) (map ((norm_func fixed) plain0) (u_funcs u)) = false).
   { apply existsb_forallb_neg. rewrite forallb_forall in *. intros f Hf. apply in_map_iff in Hf. destruct Hf as (f0 & <- & Hf0).
     specialize (Hmod f0 Hf0). apply andb_true_iff in Hmod. destruct Hmod as [_ Hg].
-    change (fn_name (norm_func plain0 f0)) with (fn_name f0).
-    change (fn_sigs (norm_func plain0 f0)) with (map (norm_fsig plain0 (fn_name f0)) (fn_sigs f0)). rewrite map_length. exact Hg. }
+    change (fn_name ((norm_func fixed) plain0 f0)) with (fn_name f0).
+    change (fn_sigs ((norm_func fixed) plain0 f0)) with (map (norm_fsig plain0 (fn_name f0)) (fn_sigs f0)). rewrite map_length. exact Hg. }
   rewrite Eprop, Egetattr.
-  assert (Ever: forallb (verify_func []) (map (norm_func plain0) (u_funcs u)) = true).
+  assert (Ever: forallb (verify_func []) (map ((norm_func fixed) plain0) (u_funcs u)) = true).
   { rewrite forallb_forall in *. intros f Hf. apply in_map_iff in Hf. destruct Hf as (f0 & <- & Hf0).
     destruct (wf_func_parts _ _ _ _ (Hfn f0 Hf0)) as (_ & _ & _ & _ & Hv). exact Hv. }
   rewrite Ever.
@@ -1552,3 +1556,5 @@ Proof.
     - injection Efa as Efa. apply IH. exact Efa. }
   rewrite Efa, Efn. reflexivity.
 Qed.
+
+End Fixed.
